@@ -155,10 +155,13 @@ class Case:
     """the real classes and program for one declaration set"""
 
     def __init__(self, layout, percpu=False, map_in_base=True,
-                 map_in_derived=True, kinds=None, assign=None):
+                 map_in_derived=True, kinds=None, assign=None, extra_in=0,
+                 extra_out=0):
         """kinds: the array-type maps of the program in declaration order
         ("array" / "percpu"; default: one map); assign: for every
-        declaration of `layout` the index of the map it is declared in"""
+        declaration of `layout` the index of the map it is declared in;
+        extra_in / extra_out: further 8-byte words of the packet behind
+        the in / out copies of the variables"""
         self.layout = layout
         if kinds is None:
             kinds = ("percpu" if percpu else "array",)
@@ -233,7 +236,9 @@ class Case:
             plan += [(o, n, f, "subA") for n, f in suba] if suba else []
         plan += [("b1", n, f, "subB") for n, f in subb]
         total = sum((fsize(f) + 7) // 8 * 8 for _, _, f, _ in plan)
-        b = self.b = dsl.Builder(dattrs, n_in=total // 8, n_out=total // 8,
+        self.total = total
+        b = self.b = dsl.Builder(dattrs, n_in=total // 8 + extra_in,
+                                 n_out=total // 8 + extra_out,
                                  bases=(self.Base,), subprograms=subs,
                                  pv_area=HDR)
         self.e = b.e
@@ -254,7 +259,7 @@ class Case:
             s.pos = s.owner.__dict__.get(s.name)
         return [(s.oname, s.name, s.fmt, s.pos) for s in self.slots]
 
-    def emit(self, copy_out=True, copy_in=True):
+    def emit(self, copy_out=True, copy_in=True, finish=True):
         e, b = self.e, self.b
         for direction in ("out", "in"):
             if (direction == "out" and not copy_out) or \
@@ -285,7 +290,8 @@ class Case:
                         else:
                             b.raw(dsl.SZ_LDX[esz], tmp, 9, off + i * esz, 0)
                             b.raw(dsl.SZ_STX[esz], reg, tmp, i * esz, 0)
-        b.finish(2)
+        if finish:
+            b.finish(2)
 
     def packet(self, invals):
         pkt = bytearray(self.pkt_len)
@@ -335,6 +341,93 @@ def py_value(fmt, s, t, seed):
 
 def vectors(seed):
     return [0, 1, 2] + ([3] if seed else [])
+
+
+# ---------------------------------------------------- writes struct refuses
+REFUSED_WRITES = True
+
+
+def elem_range(ef):
+    bits = 8 * struct.calcsize(ef)
+    if ef.islower():
+        return -(1 << (bits - 1)), (1 << (bits - 1)) - 1
+    return 0, (1 << bits) - 1
+
+
+def refused_values(fmt):
+    """values that cannot be a value of a variable of this format: out of
+    range, of a wrong type, of a wrong arity; for multi-element formats
+    tuples that are wrong only in one (the last, a middle, the first)
+    element; for 'x' decimals whose scaled value does not fit 64 bits.
+    The first entry is always a range error as late in the value as
+    possible.  -> [(kind, value)]"""
+    if fmt == "x":
+        return [("range", 1e15), ("range-neg", -1e15), ("type-str", "7"),
+                ("type-none", None)]
+    n, ef = elems(fmt)
+    lo, hi = elem_range(ef)
+    if n == 1:
+        return [("range", hi + 1), ("range-neg", lo - 1), ("type-str", "7"),
+                ("type-float", 1.5), ("type-none", None),
+                ("arity-2", (1, 2)), ("arity-0", ())]
+    good = [(3 + 5 * i) & 0x7f for i in range(n)]
+
+    def but(j, v):
+        t = list(good)
+        t[j] = v
+        return tuple(t)
+    out = [("range-last", but(n - 1, hi + 1)),
+           ("range-neg-last", but(n - 1, lo - 1)),
+           ("range-mid", but(n // 2, hi + 1)),
+           ("type-last", but(n - 1, "7")),
+           ("type-mid", but(n // 2, None)),
+           ("range-first", but(0, hi + 1)),
+           ("arity-less", tuple(good[:-1])),
+           ("arity-more", tuple(good) + (1,)),
+           ("arity-scalar", 1)]
+    return out
+
+
+def refused_note(obs, t, phase, i):
+    """the refused writes to slot i in (vector, phase), for a report"""
+    for ent in obs:
+        if ent[0] == "pyrefuse" and ent[1:3] == (t, phase):
+            return [k for j, k, r in ent[3] if j == i]
+    return []
+
+
+def refuse_writes(case, t, phase, obs):
+    """Attempt, for every variable of a plain array map, writes from Python
+    that struct refuses: the first of `refused_values` (a range error in
+    the last element) and one more, rotating with the vector and the slot
+    (the very first time: all of them).  An exception is the accepted
+    answer.  -> the slots where the library accepted such a value instead
+    (what they hold then is left open; the caller writes them again or
+    leaves them out of its verdict).  What is read afterwards is judged by
+    the caller."""
+    accepted = []
+    if not REFUSED_WRITES:
+        return accepted
+    log = []
+    for i, s in enumerate(case.slots):
+        if case.kinds[s.mi] != "array":
+            continue
+        rv = refused_values(s.fmt)
+        pick = rv if phase == 0 and t == 0 else \
+            [rv[0], rv[1 + (t + i + phase) % (len(rv) - 1)]]
+        for kind, v in pick:
+            try:
+                setattr(s.owner, s.name, v)
+            except Exception as ex:
+                if isinstance(ex, simkernel.SimTrap):
+                    raise
+                log.append((i, kind, type(ex).__name__))
+                continue
+            log.append((i, kind, "accepted"))
+            if i not in accepted:
+                accepted.append(i)
+    obs.append(("pyrefuse", t, phase, log))
+    return accepted
 
 
 # ------------------------------------------------------------------ oracle
@@ -554,6 +647,13 @@ def run_array(layout, seed, backend, res=None, variant=()):
                             sink.add(cj, "Python write accepted",
                                      f"{type(ex).__name__}: {ex}",
                                      "python-write", note=f"slot {i}")
+                # writes struct refuses: nothing is written
+                for i in refuse_writes(case, t, 0, obs):
+                    if res is not None:
+                        res.count("refused_value_accepted")
+                    with contextlib.suppress(Exception):
+                        setattr(case.slots[i].owner, case.slots[i].name,
+                                want[i][0])
                 back = []
                 for i, s in enumerate(case.slots):
                     try:
@@ -578,6 +678,8 @@ def run_array(layout, seed, backend, res=None, variant=()):
                     ret, out = kern.test_run(e.file_descriptor, pkt)
                 outs = case.outs(out)
                 obs.append(("run", t, ret, outs))
+                # ... whoever wrote the value that is there
+                open1 = refuse_writes(case, t, 1, obs)
                 got = []
                 for i, s in enumerate(case.slots):
                     try:
@@ -594,19 +696,24 @@ def run_array(layout, seed, backend, res=None, variant=()):
                     if not same(s.fmt, back[i], v):
                         sink.add(cj, v, back[i], "py-py", kf=kfi,
                                  note=f"{where}: Python read after all "
-                                 f"Python writes, vector {t}")
+                                 f"Python writes and the refused ones "
+                                 f"{refused_note(obs, t, 0, i)}, vector {t}")
                     if ret != 2:
                         sink.add(cj, 2, ret, "retval", kf=kf)
                     elif outs[i] != raw:
                         sink.add(cj, raw, outs[i], "py-to-program", kf=kfi,
                                  note=f"{where}: program read of the value "
-                                 f"{v!r} written by Python, vector {t}")
+                                 f"{v!r} written by Python (refused "
+                                 f"afterwards: {refused_note(obs, t, 0, i)}), "
+                                 f"vector {t}")
                     exp = decode(s.fmt, invals[i])
-                    if ret == 2 and not same(s.fmt, got[i], exp):
+                    if ret == 2 and i not in open1 and \
+                            not same(s.fmt, got[i], exp):
                         sink.add(cj, exp, got[i], "program-to-py", kf=kfi,
                                  note=f"{where}: Python read of bytes "
-                                 f"{invals[i].hex()} stored by the program, "
-                                 f"vector {t}")
+                                 f"{invals[i].hex()} stored by the program "
+                                 f"(refused afterwards: "
+                                 f"{refused_note(obs, t, 1, i)}), vector {t}")
             for m in [e.__dict__.get("amap")]:
                 if hasattr(m, "close"):
                     m.close()
@@ -857,6 +964,10 @@ def observe_multi(layout, assign, kinds, seed, backend, n_possible, n_online,
                         setattr(s.owner, s.name, v)
                     except Exception as ex:
                         obs.append(("pyset-exc", t, i, type(ex).__name__))
+                for i in refuse_writes(case, t, 0, obs):
+                    with contextlib.suppress(Exception):
+                        setattr(case.slots[i].owner, case.slots[i].name,
+                                py_value(case.slots[i].fmt, i, t, seed)[0])
                 back = []
                 for i, s in enumerate(case.slots):
                     if kinds[s.mi] != "array":
@@ -955,6 +1066,56 @@ def layout_problems(slots, vsizes):
     return probs
 
 
+def slot_name(slots, kinds, i):
+    o, n, f, p, m, pos = slots[i]
+    return f"{o}.{n} ({f}, {p}, map {m} {kinds[m]})"
+
+
+def judge_pyread(out, slots, kinds, imgs, reads, n_possible, t):
+    """what Python reads of every variable against the reference images"""
+    for i, (o, n, f, p, m, pos) in enumerate(slots):
+        got = reads[i]
+        name = slot_name(slots, kinds, i)
+        if kinds[m] == "array":
+            exp = decode(f, bytes(imgs[m][pos:pos + fsize(f)]))
+            if not same(f, got, exp):
+                out.append(("program-to-py", exp, got,
+                            f"{name}: Python read after the "
+                            f"program stored, step {t}"))
+            continue
+        if not isinstance(got, list):
+            out.append(("percpu-py-read", "a sequence", got, name))
+            continue
+        for c in range(min(len(got), n_possible)):
+            exp = decode(f, bytes(imgs[m][c][pos:pos + fsize(f)]))
+            if not same(f, got[c], exp):
+                out.append(("percpu-py-read", exp, got[c],
+                            f"{name}[{c}] after step {t}"))
+
+
+def judge_image(out, kinds, vsizes, imgs, views, n_possible, t):
+    """all bytes of every map as Python sees them against the reference"""
+    for mi, view in enumerate(views):
+        vs = vsizes[mi]
+        if not vs:
+            continue
+        if kinds[mi] == "array":
+            exp = bytes(imgs[mi])
+            if view != exp:
+                out.append(("map-bytes", exp, view,
+                            f"all bytes of map {mi} (array) after "
+                            f"step {t}: {diff_at(exp, view)}"))
+            continue
+        for c in range(min(len(view) // vs, n_possible)):
+            exp = bytes(imgs[mi][c])
+            got = view[c * vs:(c + 1) * vs]
+            if got != exp:
+                out.append(("map-bytes", exp, got,
+                            f"all bytes of map {mi} (per-CPU) for "
+                            f"CPU {c} after step {t}: "
+                            f"{diff_at(exp, got)}"))
+
+
 def judge_multi(obs, kinds, n_possible, n_online, seed, alias=None):
     """Reference: every map is an array of bytes (per-CPU maps: one per
     possible CPU), all zero at first; every variable is the bytes
@@ -1039,43 +1200,11 @@ def judge_multi(obs, kinds, n_possible, n_online, seed, alias=None):
                         ent[3], f"map {ent[2]} {kinds[ent[2]]}, step {t}"))
             return out
         elif tag == "pyread":
-            for i, (o, n, f, p, m, pos) in enumerate(slots):
-                got = ent[2][i]
-                if kinds[m] == "array":
-                    exp = decode(f, bytes(imgs[m][pos:pos + fsize(f)]))
-                    if not same(f, got, exp):
-                        out.append(("program-to-py", exp, got,
-                                    f"{name(i)}: Python read after the "
-                                    f"program stored, step {t}"))
-                    continue
-                if not isinstance(got, list):
-                    out.append(("percpu-py-read", "a sequence", got, name(i)))
-                    continue
-                for c in range(min(len(got), n_possible)):
-                    exp = decode(f, bytes(imgs[m][c][pos:pos + fsize(f)]))
-                    if not same(f, got[c], exp):
-                        out.append(("percpu-py-read", exp, got[c],
-                                    f"{name(i)}[{c}] after step {t}"))
+            judge_pyread(out, slots, kinds, imgs, ent[2], n_possible, t)
         elif tag == "image":
-            for mi, view in enumerate(ent[2]):
-                vs = vsizes[mi]
-                if not vs:
-                    continue
-                if kinds[mi] == "array":
-                    exp = bytes(imgs[mi])
-                    if view != exp:
-                        out.append(("map-bytes", exp, view,
-                                    f"all bytes of map {mi} (array) after "
-                                    f"step {t}: {diff_at(exp, view)}"))
-                    continue
-                for c in range(min(len(view) // vs, n_possible)):
-                    exp = bytes(imgs[mi][c])
-                    got = view[c * vs:(c + 1) * vs]
-                    if got != exp:
-                        out.append(("map-bytes", exp, got,
-                                    f"all bytes of map {mi} (per-CPU) for "
-                                    f"CPU {c} after step {t}: "
-                                    f"{diff_at(exp, got)}"))
+            judge_image(out, kinds, vsizes, imgs, ent[2], n_possible, t)
+        elif tag == "pyrefuse":
+            pass        # nothing was written; accepted ones were rewritten
         elif tag == "len":
             seen_len = True
             for mi, n in ent[1]:
@@ -1190,6 +1319,519 @@ def multi_family(pairs, k):
             for a in assignments(lay)]
 
 
+# ------------------------------------- single elements, run-time indices
+# The library's own way of indexing a multi-element variable at run time
+# (EtherXDP.program does it with its "64I" counters):
+#     with var.get_address(None, False, False) as (dst, _), e.r3 < n:
+#         e.r[dst] += size * e.r3
+#         ... e.mI[e.r[dst]] ...
+# i.e. the register the address comes in is modified in place.
+ELEM_ACCESS = True
+ELEM_MODES = ("rw", "inc", "r", "w")
+SPILL = -512    # stack bytes far below anything the generator allots
+MULTI_FORMATS = [f for f in FORMATS if f != "x" and elems(f)[0] > 1]
+
+
+def is_multi(fmt):
+    return fmt != "x" and elems(fmt)[0] > 1
+
+
+def pad8(n):
+    return (n + 7) // 8 * 8
+
+
+def elem_indices(n, full):
+    """the run-time indices a multi-element variable of n elements is
+    accessed with: all of them (n > 5 and not `full`: both ends and the
+    middle), then two that the guard `index < n` has to keep out"""
+    if n <= 5 or full:
+        inside = list(range(1, n)) + [0]
+    else:
+        inside = [1, n - 1, 0, n // 2, n - 2]
+    return inside + [n, 255]
+
+
+def elem_plan(slots, full):
+    """-> (indices of the multi-element slots, of the others, number of
+    runs, index of multi-element slot number j in run t)"""
+    multis = [i for i, sl in enumerate(slots) if is_multi(sl[2])]
+    others = [i for i, sl in enumerate(slots) if not is_multi(sl[2])]
+    lists = [elem_indices(elems(slots[i][2])[0], full) for i in multis]
+    runs = max([len(x) for x in lists] or [1])
+
+    def index(j, t):
+        return lists[j][(t + j) % len(lists[j])]
+    return multis, others, runs, index
+
+
+def elem_inval(ef, j, t, seed):
+    """packet bytes the program stores into the indexed element"""
+    return pattern(ef, 7 + j, t + 2, seed + 3)
+
+
+class ElemCase:
+    """A Case whose program goes, for every multi-element variable in turn,
+    through the library's idiom with an index taken from the packet: reads
+    the element into the packet and / or stores packet bytes into it
+    (mode "rw", "r", "w"; "inc": `+= 1` and read), then copies every
+    single-element variable to the packet and the packet to it; at the end
+    every variable is copied whole to the packet.  Right after the prologue
+    the base register of every map is put on the stack by a raw instruction,
+    and after every statement raw instructions compare it with what is
+    there and leave a mark in the packet if it moved."""
+
+    def __init__(self, layout, kinds, assign, mode):
+        cnt = [2 if p == "subA" else 1 for f, p in layout]
+        nm = sum(c for (f, p), c in zip(layout, cnt) if is_multi(f))
+        no = sum(c for (f, p), c in zip(layout, cnt) if not is_multi(f))
+        wa = sum(c * pad8(fsize(f)) // 8 for (f, p), c in zip(layout, cnt)
+                 if not is_multi(f))
+        fw = (2 + nm * (1 + no) + 7) // 8
+        self.mode = mode
+        c = self.case = Case(layout, kinds=kinds, assign=assign,
+                             extra_in=2 * nm, extra_out=nm * (1 + wa) + fw)
+        b = c.b
+        self.multis = [i for i, s in enumerate(c.slots) if is_multi(s.fmt)]
+        self.others = [i for i, s in enumerate(c.slots)
+                       if not is_multi(s.fmt)]
+        self.off_a, o = {}, 0
+        for i in self.others:
+            self.off_a[i] = o
+            o += pad8(c.slots[i].size)
+        self.blk = 8 + o
+        self.xin = b.in_off + c.total
+        self.xout = b.out_off + c.total
+        self.flags = self.xout + len(self.multis) * self.blk
+        self.nflags = b.pkt_len - self.flags
+        self.ncheck = 0
+        if len(self.multis) > nm or o > 8 * wa or self.nflags < 8 * fw:
+            raise core.Internal("C08: packet areas of an ElemCase")
+
+    # ---- packet offsets
+    def idx_off(self, j):
+        return self.xin + 16 * j
+
+    def ein_off(self, j):
+        return self.xin + 16 * j + 8
+
+    def eout_off(self, j):
+        return self.xout + j * self.blk
+
+    def outa_off(self, j, i):
+        return self.xout + j * self.blk + 8 + self.off_a[i]
+
+    def in_off(self, i):
+        s = self.case.slots[i]
+        return self.case.b.in_off + self.case.off[(s.oname, s.name)]
+
+    # ---- program
+    def checkpoint(self):
+        c, b, e = self.case, self.case.b, self.case.e
+        k = self.ncheck
+        self.ncheck += 1
+        if k >= self.nflags:
+            raise core.Internal("C08: too many checkpoints")
+        with e.get_free_register(None) as tmp:
+            for j, (mi, reg) in enumerate(self.bases):
+                b.raw(0x79, tmp, 10, SPILL + 8 * j, 0)  # what was put there
+                b.raw(0x1d, tmp, reg, 2, 0)             # same: skip
+                b.raw(0xb7, tmp, 0, 0, 1 + mi)
+                b.raw(0x73, 9, tmp, self.flags + k, 0)
+
+    def emit(self):
+        c, b, e = self.case, self.case.b, self.case.e
+        self.bases = [(mi, M.base_register) for mi, M in enumerate(c.maps)
+                      if getattr(M, "size", 0)]
+        for j, (mi, reg) in enumerate(self.bases):
+            b.raw(0x7b, 10, reg, SPILL + 8 * j, 0)
+        self.checkpoint()
+        mode = self.mode
+        for j, i in enumerate(self.multis):
+            s = c.slots[i]
+            n, ef = elems(s.fmt)
+            esz = struct.calcsize(ef)
+            mm = getattr(e, "m" + ef)
+            var = getattr(s.owner, s.name)
+            b.raw(0x71, 3, 9, self.idx_off(j), 0)
+            e.owners.add(3)
+            with var.get_address(None, False, False) as (dst, _), e.r3 < n:
+                if esz > 1:
+                    e.r[dst] += esz * e.r3
+                else:
+                    e.r[dst] += e.r3
+                if mode == "inc":
+                    mm[e.r[dst]] += 1
+                if mode != "w":
+                    mm[e.r9 + self.eout_off(j)] = mm[e.r[dst]]
+                if mode in ("rw", "w"):
+                    mm[e.r[dst]] = mm[e.r9 + self.ein_off(j)]
+            e.owners.discard(3)
+            self.checkpoint()
+            for i2 in self.others:
+                s2 = c.slots[i2]
+                m2 = MemoryMap(e, s2.fmt) if s2.fmt[0] in "<>!" \
+                    else getattr(e, "m" + s2.fmt)
+                m2[e.r9 + self.outa_off(j, i2)] = getattr(s2.owner, s2.name)
+                setattr(s2.owner, s2.name, m2[e.r9 + self.in_off(i2)])
+                self.checkpoint()
+        c.emit(copy_out=True, copy_in=False, finish=False)
+        self.checkpoint()
+        b.finish(2)
+
+    def packet(self, t, seed, index):
+        c = self.case
+        pkt = bytearray(c.pkt_len)
+        for i in self.others:
+            s = c.slots[i]
+            o = self.in_off(i)
+            pkt[o:o + s.size] = multi_inval(s.fmt, i, t, seed)
+        for j, i in enumerate(self.multis):
+            ef = elems(c.slots[i].fmt)[1]
+            pkt[self.idx_off(j)] = index(j, t)
+            raw = elem_inval(ef, j, t, seed)
+            pkt[self.ein_off(j):self.ein_off(j) + len(raw)] = raw
+        return pkt
+
+    def results(self, pkt):
+        """-> (element read per multi-element slot, copies of the others
+        after each, whole copies of all slots at the end, checkpoint marks)"""
+        c = self.case
+        eouts, outa = [], []
+        for j, i in enumerate(self.multis):
+            esz = struct.calcsize(elems(c.slots[i].fmt)[1])
+            eouts.append(bytes(pkt[self.eout_off(j):self.eout_off(j) + esz]))
+            outa.append([bytes(pkt[self.outa_off(j, k):
+                                   self.outa_off(j, k) + c.slots[k].size])
+                         for k in self.others])
+        marks = bytes(pkt[self.flags:self.flags + self.ncheck])
+        return eouts, outa, c.outs(pkt), marks
+
+
+def observe_elem(layout, assign, kinds, mode, full, seed, backend,
+                 n_possible, cpus):
+    """-> (status, observations, interpreter steps)"""
+    obs, steps = [], 0
+    sk = simkernel.SimKernel(n_possible=n_possible, n_online=n_possible) \
+        if backend == "sim" else None
+    ctx = sk.installed() if sk else real_kernel()
+    aff = None
+    try:
+        with ctx:
+            try:
+                ec = ElemCase(layout, kinds, assign, mode)
+                case = ec.case
+                case.read_positions()
+                ec.emit()
+                case.e.load()
+            except Exception as ex:
+                if isinstance(ex, (simkernel.SimTrap, core.Internal)):
+                    raise
+                return "rejected:" + type(ex).__name__, obs, steps
+            e = case.e
+            vsizes = [getattr(M, "size", 0) for M in case.maps]
+            made = [mi for mi in range(len(kinds)) if vsizes[mi]]
+            if not sk:
+                aff = os.sched_getaffinity(0)
+            obs.append(("maps", vsizes))
+            case.read_positions()
+            slots = [(s.oname, s.name, s.fmt, s.place, s.mi, s.pos)
+                     for s in case.slots]
+            obs.append(("positions", slots))
+            if layout_problems(slots, vsizes):
+                return "ok", obs, steps
+            multis, others, runs, index = elem_plan(slots, full)
+            if multis != ec.multis or others != ec.others:
+                raise core.Internal("C08: plan of an ElemCase")
+            for t in range(runs):
+                cpu = cpus[t % len(cpus)]
+                for i, s in enumerate(case.slots):
+                    if kinds[s.mi] != "array":
+                        continue
+                    try:
+                        setattr(s.owner, s.name,
+                                py_value(s.fmt, i, t, seed)[0])
+                    except Exception as ex:
+                        obs.append(("pyset-exc", t, i, type(ex).__name__))
+                obs.append(("pywritten", t))
+                pkt = ec.packet(t, seed, index)
+                if sk:
+                    try:
+                        ret, vm = sk.run_prog(e.file_descriptor, pkt, cpu=cpu)
+                    except simkernel.SimTrap as trap:
+                        obs.append(("trap", t, cpu, str(trap)))
+                        break
+                    out = pkt
+                    steps += vm.steps
+                else:
+                    os.sched_setaffinity(0, {cpu})
+                    ret, out = kern.test_run(e.file_descriptor, pkt)
+                obs.append(("run", t, cpu, ret) + ec.results(out))
+                views = []
+                try:
+                    for mi in range(len(kinds)):
+                        views.append(py_view(case, mi) if mi in made else b"")
+                except Exception as ex:
+                    obs.append(("read-exc", t, len(views),
+                                f"{type(ex).__name__}: {ex}"))
+                    break
+                got = []
+                for i, s in enumerate(case.slots):
+                    try:
+                        var = getattr(s.owner, s.name)
+                        if kinds[s.mi] == "array":
+                            got.append(var)
+                            continue
+                        row = []
+                        for c in range(len(var)):
+                            try:
+                                row.append(var[c])
+                            except Exception as ex:
+                                row.append(type(ex).__name__)
+                        got.append(row)
+                    except Exception as ex:
+                        got.append(type(ex).__name__)
+                obs.append(("pyread", t, got))
+                obs.append(("image", t, views))
+            obs.append(("end",))
+            for mi in made:
+                m = e.__dict__.get(case.mapnames[mi])
+                if hasattr(m, "close"):
+                    m.close()
+            del case, e, ec
+    finally:
+        if aff is not None:
+            os.sched_setaffinity(0, aff)
+        if sk:
+            sk.close_all()
+    return "ok", obs, steps
+
+
+def judge_elem(obs, kinds, mode, full, n_possible, seed):
+    """Reference as in judge_multi: every map an array of bytes (per-CPU
+    maps one per CPU), every variable its own bytes; element number i of a
+    multi-element variable is the bytes [pos + i * size, pos + (i + 1) *
+    size).  The program's statements are applied in program order.
+    -> list of (kind, expected, observed, note)"""
+    out = []
+    if not obs or obs[0][0] != "maps":
+        raise core.Internal("C08: observations without maps")
+    vsizes, slots = obs[0][1], obs[1][1]
+    probs = layout_problems(slots, vsizes)
+    if probs:
+        return [("layout", "positions pairwise disjoint and inside their "
+                 f"map (value sizes {vsizes})", probs[:4], "layout")]
+    imgs = [bytearray(vs) if kinds[mi] == "array"
+            else [bytearray(vs) for _ in range(n_possible)]
+            for mi, vs in enumerate(vsizes)]
+
+    def region(mi, cpu):
+        return imgs[mi] if kinds[mi] == "array" else imgs[mi][cpu]
+
+    multis, others, runs, index = elem_plan(slots, full)
+    ended = False
+    for ent in obs[2:]:
+        tag = ent[0]
+        t = ent[1] if len(ent) > 1 else None
+        if tag == "pyset-exc":
+            out.append(("python-write", "Python write accepted", ent[3],
+                        f"{slot_name(slots, kinds, ent[2])}, run {t}"))
+        elif tag == "pywritten":
+            for i, (o, n, f, p, m, pos) in enumerate(slots):
+                if kinds[m] == "array":
+                    raw = py_value(f, i, t, seed)[1]
+                    imgs[m][pos:pos + len(raw)] = raw
+        elif tag == "trap":
+            out.append(("trap", "the program runs", ent[3],
+                        f"run {t} on CPU {ent[2]}, indices "
+                        f"{[index(j, t) for j in range(len(multis))]}"))
+            return out
+        elif tag == "run":
+            _, _, cpu, ret, eouts, outa, outb, marks = ent
+            idxs = [index(j, t) for j in range(len(multis))]
+            where = f"run {t} on CPU {cpu}, indices {idxs}"
+            if ret != 2:
+                out.append(("retval", 2, ret, where))
+                return out
+            if any(marks):
+                k = next(i for i, x in enumerate(marks) if x)
+                out.append(("base-register", "the base register of every "
+                            "map still points to the map's value after "
+                            "every statement", f"the one of map "
+                            f"{marks[k] - 1} ({kinds[marks[k] - 1]}) differs "
+                            f"from its value after the prologue at "
+                            f"checkpoint {k} (all: {marks.hex()})", where))
+            for j, i in enumerate(multis):
+                o, n_, f, p, m, pos = slots[i]
+                n, ef = elems(f)
+                esz = struct.calcsize(ef)
+                reg = region(m, cpu)
+                idx = idxs[j]
+                exp = bytes(esz)        # the packet as it was sent
+                if idx < n:
+                    a = pos + idx * esz
+                    if mode == "inc":
+                        v = int.from_bytes(reg[a:a + esz], "little") + 1
+                        reg[a:a + esz] = (v & ((1 << 8 * esz) - 1)).to_bytes(
+                            esz, "little")
+                    if mode != "w":
+                        exp = bytes(reg[a:a + esz])
+                    if mode in ("rw", "w"):
+                        reg[a:a + esz] = elem_inval(ef, j, t, seed)
+                if eouts[j] != exp:
+                    out.append(("element-read", exp, eouts[j],
+                                f"{slot_name(slots, kinds, i)}: element "
+                                f"{idx} of {n} as the program read it "
+                                f"(mode {mode}), {where}"))
+                for k, i2 in enumerate(others):
+                    o2, n2, f2, p2, m2, pos2 = slots[i2]
+                    r2 = region(m2, cpu)
+                    exp = bytes(r2[pos2:pos2 + fsize(f2)])
+                    if outa[j][k] != exp:
+                        out.append(("program-read", exp, outa[j][k],
+                                    f"{slot_name(slots, kinds, i2)}: program "
+                                    f"read after element {idx} of "
+                                    f"{slot_name(slots, kinds, i)} was "
+                                    f"accessed, {where}"))
+                    raw = multi_inval(f2, i2, t, seed)
+                    r2[pos2:pos2 + len(raw)] = raw
+            for i, (o, n_, f, p, m, pos) in enumerate(slots):
+                exp = bytes(region(m, cpu)[pos:pos + fsize(f)])
+                if outb[i] != exp:
+                    out.append(("program-read-whole", exp, outb[i],
+                                f"{slot_name(slots, kinds, i)}: program read "
+                                f"at the end, {where}: "
+                                f"{diff_at(exp, outb[i])}"))
+        elif tag == "read-exc":
+            out.append(("map-read", "the map can be read from Python",
+                        ent[3], f"map {ent[2]} {kinds[ent[2]]}, run {t}"))
+            return out
+        elif tag == "pyread":
+            judge_pyread(out, slots, kinds, imgs, ent[2], n_possible, t)
+        elif tag == "image":
+            judge_image(out, kinds, vsizes, imgs, ent[2], n_possible, t)
+        elif tag == "end":
+            ended = True
+        else:
+            raise core.Internal(f"C08: unknown observation {tag}")
+    if not ended:
+        raise core.Internal("C08: observations end early")
+    return out
+
+
+def run_elem(layout, assign, kinds, mode, full, seed, backend, n_possible,
+             cpus, res=None):
+    cj = dict(kind="elem", layout=[list(p) for p in layout],
+              assign=list(assign), kinds=list(kinds), mode=mode, full=full,
+              n_possible=n_possible, cpus=list(cpus))
+    st, obs, steps = observe_elem(layout, assign, kinds, mode, full, seed,
+                                  backend, n_possible, cpus)
+    if res is None or st.startswith("rejected"):
+        return st, obs
+    res.count("transitions", steps)
+    viol = judge_elem(obs, kinds, mode, full, n_possible, seed)
+    sink = Sink(res)
+    for kind, exp, got, note in viol[:6]:
+        sink.add(cj, exp, got, "elem-" + kind, note=note or kind)
+    if viol:
+        res.count("violating_cases")
+    if len(layout) == 2 and layout[0][0] == "5I" and layout[1][1] == "subA":
+        res.sample(dict(cj, positions=obs[1][1], map_sizes=obs[0][1]),
+                   limit=3)
+    return ("violated" if viol else "ok"), obs
+
+
+def work_elem(item, seed, kern_every, res):
+    layout, assign, kinds, mode, full = item
+    n = os.cpu_count() or 1
+    cpus = (0, n - 1) if "percpu" in kinds else (0,)
+    res.count("evaluations")
+    res.count("evaluations_element_access")
+    st, obs = run_elem(layout, assign, kinds, mode, full, seed, "sim", n,
+                       cpus, res)
+    res.outcomes.add("elem-" + st)
+    if st.startswith("rejected"):
+        res.count("rejected_by_generator")
+        return
+    res.count("traces_validated_against_impl")
+    res.nontrivial.add(core.digest(["elem", layout, assign, kinds, mode]))
+    if st == "ok" and kern_every and kern.available() and \
+            n == simkernel.possible_cpus() and \
+            int(core.digest([layout, assign, kinds, mode], 8), 16) \
+            % kern_every == 0:
+        st2, obs2 = run_elem(layout, assign, kinds, mode, full, seed, "real",
+                             n, cpus)
+        res.count("kernel_validated")
+        res.count("kernel_validated_element_access")
+        if (st2, obs2) != (st, obs):
+            raise core.Internal(
+                "simulated and real kernel disagree on element access "
+                f"{layout} {kinds} {assign} mode {mode}: "
+                f"{first_diff(obs, obs2)}")
+
+
+def elem_items(ctx):
+    """programs that index multi-element variables at run time"""
+    quick = ctx.quick
+    multi = [(f, p) for p in PLACES for f in MULTI_FORMATS]
+    fam = []        # (layout, assign, kinds, mode, full, kernel every)
+    modes = ELEM_MODES[:2] if quick else ELEM_MODES
+    single = [("array",), ("percpu",)]
+
+    def canon(lay):
+        return tuple(sorted(lay, key=PAIRS.index))
+    # a multi-element variable alone and next to every other declaration
+    seen = set()
+    for a in multi:
+        for lay in [(a,)] + [canon((a, b)) for b in PAIRS]:
+            if lay in seen or not valid(lay):
+                continue
+            seen.add(lay)
+            for kinds in single:
+                for mode in modes:
+                    fam.append((lay, (0,) * len(lay), kinds, mode, False,
+                                61 if quick else 211))
+            if not quick and any(f == "64I" for f, p in lay):
+                fam.append((lay, (0,) * len(lay), ("array",), "rw", True,
+                            499))
+    # ... next to two others, smaller alphabet
+    tm = [(f, p) for p in PLACES[:4] for f in (("3B", "5I") if quick else
+                                               MULTI_FORMATS)]
+    to = [(f, p) for p in PLACES
+          for f in (TRI_FORMATS_QUICK if quick else TRI_FORMATS)]
+    seen = set()
+    for a in tm:
+        for b, c in itertools.combinations_with_replacement(to, 2):
+            lay = canon((a, b, c))
+            if lay in seen or not valid(lay):
+                continue
+            seen.add(lay)
+            for kinds in single:
+                fam.append((lay, (0, 0, 0), kinds,
+                            modes[len(seen) % len(modes)], False,
+                            97 if quick else 499))
+    # ... in one map, the other variable in a map of the other kind
+    for a in multi:
+        for b in [(f, p) for p in PLACES for f in SAME_FORMATS + ["5I"]]:
+            lay = canon((a, b))
+            if not valid(lay):
+                continue
+            for asg in assignments(lay):
+                for kinds in KINDS_MIXED:
+                    fam.append((lay, asg, kinds, "rw", False,
+                                41 if quick else 211))
+    # byte-order-prefixed neighbours
+    for a in multi[:8]:
+        for x in [(f, p) for p in ("base", "subA") for f in XFORMATS]:
+            fam.append(((a, x), (0, 0), ("array",), "rw", False, 29))
+    items = []
+    fam.sort(key=lambda f: f[5])
+    for ke, grp in itertools.groupby(fam, key=lambda f: f[5]):
+        grp = [g[:5] for g in grp]
+        for i in range(0, len(grp), 40):
+            items.append(("elem", 2, (i,), ctx.seed, ke, grp[i:i + 40]))
+    return items
+
+
 # ------------------------------------------------------------------ driver
 def percpu_configs(ctx):
     n = os.cpu_count() or 1
@@ -1209,7 +1851,7 @@ def percpu_configs(ctx):
 
 def work(item, res):
     kind, k, prefix, seed, kern_every, extra = item
-    for n, layout in enumerate(extra if kind in ("arrayx", "multi")
+    for n, layout in enumerate(extra if kind in ("arrayx", "multi", "elem")
                                else layouts_with_prefix(k, prefix)):
         if kind in ("array", "arrayx"):
             res.count("evaluations")
@@ -1230,6 +1872,8 @@ def work(item, res):
                         f"{layout}: {first_diff(obs, obs2)}")
         elif kind == "multi":
             work_multi(layout, seed, kern_every, res)
+        elif kind == "elem":
+            work_elem(layout, seed, kern_every, res)
         elif kind == "twins":
             for mode in ("fewer", "more"):
                 res.count("evaluations", 2)
@@ -1391,6 +2035,8 @@ def run(ctx):
             items.append(("percpu", k, p, ctx.seed, 23 if ctx.quick else 211,
                           pc))
     items += multi_items(ctx, pc)
+    if ELEM_ACCESS:
+        items += elem_items(ctx)
     if TWIN_INSTANCES:
         for k in (1, 2):
             for p in prefixes(k):
@@ -1469,6 +2115,10 @@ def replay(ctx, rep):
                             rep.get("seed", ctx.seed), "sim",
                             c["n_possible"], c["n_online"],
                             tuple(c["schedule"]), res)
+    elif c["kind"] == "elem":
+        st, obs = run_elem(layout, tuple(c["assign"]), tuple(c["kinds"]),
+                           c["mode"], c["full"], rep.get("seed", ctx.seed),
+                           "sim", c["n_possible"], tuple(c["cpus"]), res)
     elif c["kind"] == "array":
         st, obs = run_array(layout, rep.get("seed", ctx.seed), "sim", res,
                             variant=tuple(c.get("variant", ())))
